@@ -975,7 +975,8 @@ class Gen:
         self.emit('{', 'spec', specfile, specline, False)
         segs = self.body_with_insertions(src, it.body_open + 1, hi, loops, proofs, rel)
         self.emit_segs(segs, rel)
-        self.emit('}', 'spec', specfile, specline, False)
+        # `suffix=EXPR`: the value the prefix hands on (a local it has just computed)
+        self.emit(kw.get('suffix', '').replace('~', ' ') + '\n}', 'spec', specfile, specline, False)
         self.end_block(c_lo, c_hi)
 
     def do_fnsuffix(self, parts, block, specfile, specline):
